@@ -3,19 +3,17 @@ import AdeuModel.Lemmas.Diff
 C13 — computed diffs are exact, non-overlapping edit scripts.
 
 `ds` is the decoded output of diff-match-patch (a parameter).  Its contract — `src ds` is the first
-text, `dst ds` the second, no deletion directly after a deletion, entries are concatenations of
-whole tokens — is monitored by the harness on every observed call.
+text, `dst ds` the second, entries are concatenations of whole tokens — is monitored by the harness
+on every observed call.
 -/
 namespace Adeu.Props.C13
 open Adeu Adeu.Diff
 
-/-- Normal form assumed of diff-match-patch's output. -/
-def Normal (ds : DiffList) : Prop := okFrom false ds = true
-
-/-- Replacing every target by its new text transforms the first text into the second. -/
-theorem C13_apply (ds : DiffList) (h : Normal ds) :
+/-- Replacing every target by its new text transforms the first text into the second — for every
+diff list (no normal-form hypothesis: consecutive deletions are merged by the loop). -/
+theorem C13_apply (ds : DiffList) :
     applyEdits (src ds) (editsOfDiffs ds) = dst ds := by
-  have := applyFrom_go ds 0 none h (by intro i d h; cases h)
+  have := applyFrom_go ds 0 none (by intro i d h; cases h)
   simpa [applyEdits, editsOfDiffs, base, pend] using this
 
 /-- Edits are in coordinates of the first text, sorted and pairwise non-overlapping. -/
@@ -52,9 +50,8 @@ theorem C13_token_aligned (tds : TokDiffList) :
 def sample : DiffList :=
   [(.ins, "New ".toList), (.eq, "Hello big ".toList), (.del, "old ".toList),
    (.ins, "new ".toList), (.eq, "world".toList), (.ins, "!".toList), (.eq, " x ".toList),
-   (.del, "gone".toList)]
+   (.del, "go".toList), (.del, "ne".toList)]
 
-example : Normal sample := by unfold Normal; decide
 example : applyEdits (src sample) (editsOfDiffs sample) = dst sample := by decide
 example : (editsOfDiffs sample).length = 4 := by decide
 
